@@ -439,9 +439,17 @@ func (e *entryValueMap) tryExpungeLocked() (isExpunged bool) {
 }
 
 func (m *ValueMap) ToJSON() ([]byte, error) {
+	return m.toJSONRaw(map[*VMValue]bool{})
+}
+
+// toJSONRaw serialises the map; save is the set of containers on the current serialisation path
+// (shared with VMValue.ToJSONRaw so that a cycle through a dict is reported instead of recursing forever).
+func (m *ValueMap) toJSONRaw(save map[*VMValue]bool) ([]byte, error) {
 	var lst [][]byte
 	var err error
-	save := map[*VMValue]bool{}
+	if save == nil {
+		save = map[*VMValue]bool{}
+	}
 	m.Range(func(key string, value *VMValue) bool {
 		var jsonKey []byte
 		var jsonData []byte
